@@ -6,7 +6,7 @@
    or processed something the file persister's control record must equal (next_send, next_recv). *)
 From Coq Require Import NArith ZArith List Bool.
 From F8 Require Import Sess.Bytes Sess.Msg Sess.Persist Sess.Session Sess.SimpleCodec Sess.Wire
-  Sess.SessLemmas Sess.SendLemmas Sess.Demo C16.Spec_C16 C16.C16Proofs C16.C16Restart.
+  Sess.SessLemmas Sess.SendLemmas Sess.Demo C16.Spec_C16 C16.C16Proofs C16.C16Restart C16.C16Control.
 Import ListNotations.
 Local Open Scope N_scope.
 
@@ -66,27 +66,53 @@ Theorem c16_control_inbound_partial :
 Proof. exact c16_process_control_lemma. Qed.
 Print Assumptions c16_control_inbound_partial.
 
-(* c16_control_refuted (F20): send_process persists (next_send + 1, next_recv) even when it then does
-   not increment: after a send with a custom sequence number, with no_increment, or of a SequenceReset
-   the control record is (3, 1) while the session is at (2, 1). *)
-Theorem c16_control_refuted :
-  ctrl_and_seq (run_history demo_schema h_custom) = Some (Some (3, 1), 2, 1) /\
-  c16_ok h_custom (run_history demo_schema h_custom) = false /\
-  ctrl_and_seq (run_history demo_schema h_noinc) = Some (Some (3, 1), 2, 1) /\
-  c16_ok h_noinc (run_history demo_schema h_noinc) = false /\
-  ctrl_and_seq (run_history demo_schema h_seqreset) = Some (Some (3, 1), 2, 1) /\
-  c16_ok h_seqreset (run_history demo_schema h_seqreset) = false.
-Proof. exact c16_control_refuted_lemma. Qed.
-Print Assumptions c16_control_refuted.
+(* c16_control: the control clause at FULL strength for send-side histories, for every schema, role,
+   persister and start parameters, with NO well-formedness hypothesis: a START followed by SEND / BATCH of ANY
+   messages -- custom sequence number, no_increment, SequenceReset included; only MsgSeqNum and PossDupFlag
+   must not be preset in the header (that is a retransmission, which persists nothing) -- TICK (the heartbeat
+   supervisor with its own no_increment Logout), CLOCK and STOP: after every operation that put something on
+   the wire the file persister's control record equals (next_send, next_recv). *)
+Theorem c16_control : forall (sc : schema) (p : startp) (t : option Z) (ops : list op),
+  forallb ctl_op ops = true ->
+  c16_ctrl_ok (OStart p t :: ops) (run_history sc (OStart p t :: ops)) = true.
+Proof. exact c16_control_lemma. Qed.
+Print Assumptions c16_control.
 
-(* the same defect through the session's own Logout (sent with no_increment by the heartbeat
-   supervisor and by the force-logoff path): control (5, 2), session (4, 2); a restart on the same
-   files then skips number 4. *)
-Theorem c16_logout_refuted :
-  ctrl_and_seq (run_history demo_schema h_supervisor) = Some (Some (5, 2), 4, 2) /\
-  c16_ok h_supervisor (run_history demo_schema h_supervisor) = false.
-Proof. exact c16_logout_refuted_lemma. Qed.
-Print Assumptions c16_logout_refuted.
+(* c16_ctrl_ok is literally the control clause of the oracle. *)
+Theorem c16_ok_implies_control : forall ops tr, c16_ok ops tr = true -> c16_ctrl_ok ops tr = true.
+Proof. exact c16_ok_ctrl. Qed.
+Print Assumptions c16_ok_implies_control.
+
+(* c16_control_orig_refuted (F20, repaired by 8a992cc): the ORIGINAL send_process persisted
+   (next_send + 1, next_recv) even when it then did not increment: control (3, 1) against the session's
+   (2, 1) after a send with a custom sequence number, with no_increment, or of a SequenceReset; the code as
+   it is writes (2, 1) in all three cases. *)
+Theorem c16_control_orig_refuted :
+  ctrl_vs_seq (send_process_orig demo_schema T0 st0 m_custom7) = (Some (3, 1), 2, 1) /\
+  ctrl_vs_seq (send_process_orig demo_schema T0 st0 m_noinc1) = (Some (3, 1), 2, 1) /\
+  ctrl_vs_seq (send_process_orig demo_schema T0 st0 m_seqreset) = (Some (3, 1), 2, 1) /\
+  ctrl_vs_seq (send_process demo_schema T0 st0 m_custom7) = (Some (2, 1), 2, 1) /\
+  ctrl_vs_seq (send_process demo_schema T0 st0 m_noinc1) = (Some (2, 1), 2, 1) /\
+  ctrl_vs_seq (send_process demo_schema T0 st0 m_seqreset) = (Some (2, 1), 2, 1).
+Proof. exact c16_control_orig_refuted_lemma. Qed.
+Print Assumptions c16_control_orig_refuted.
+
+(* what remains true by design of the API: a NEW message sent with a custom sequence number carries that
+   number (7 after the Logon's 1): the numbering clause fails although the control record (2, 1) is right. *)
+Theorem c16_custom_refuted :
+  all_new_seqs_of (run_history demo_schema h_custom) = map dec [1; 7] /\
+  ctrl_and_seq (run_history demo_schema h_custom) = Some (Some (2, 1), 2, 1) /\
+  c16_ok h_custom (run_history demo_schema h_custom) = false.
+Proof. exact c16_custom_refuted_lemma. Qed.
+Print Assumptions c16_custom_refuted.
+
+(* the session's own Logout (no_increment, heartbeat supervisor): since the repair the control record is
+   (4, 2) = the session's numbers and the whole oracle accepts the history. *)
+Theorem c16_own_logout_ok :
+  ctrl_and_seq (run_history demo_schema h_supervisor) = Some (Some (4, 2), 4, 2) /\
+  c16_ok h_supervisor (run_history demo_schema h_supervisor) = true.
+Proof. exact c16_logout_ok_lemma. Qed.
+Print Assumptions c16_own_logout_ok.
 
 (* the Reject path of Session::process (an f8Exception without force_logoff, here a missing mandatory
    field) increments next_recv without updating the control record: control (3, 2), session (3, 3). *)
